@@ -70,3 +70,10 @@ func VerifHeapSane() bool {
 	}
 	return true
 }
+
+// VerifWithLock runs f while holding the package lock (schedule control for the checks, see internal/lockstep).
+func VerifWithLock(f func()) {
+	cc.lock.Lock()
+	defer cc.lock.Unlock()
+	f()
+}
